@@ -1,4 +1,6 @@
 import CoercionModel.Model.Startup
+import CoercionModel.Model.SkeletonsMore
+import CoercionModel.Generated.F12
 set_option linter.unusedSimpArgs false
 /-
   C11 — Only live Running plans are resumed; stale ones closed, others untouched.
@@ -63,5 +65,10 @@ theorem close_keeps_others (p : Stored) : (close p).1.inner.length = p.inner.len
 example : [fate true 100 1000 ⟨1, .running, 880, []⟩, fate true 100 1000 ⟨2, .running, 900, []⟩, fate true 100 1000 ⟨3, .notStarted, 0, []⟩,
     fate true 100 1000 ⟨4, .completed, 1, []⟩, fate false 100 1000 ⟨5, .running, 999, []⟩] =
     [.closed, .resumed, .untouched, .untouched, .untouched] := by decide
+
+set_option maxRecDepth 100000 in
+/-- the code this property's model mirrors still has the shape the model was written against (control-flow
+    skeletons regenerated from /repo on every run, Model/SkeletonsMore) -/
+theorem facts_model_skeleton : Generated.F12.startup = SkeletonsMore.startup := by decide +kernel
 
 end Coercion.C11
